@@ -97,5 +97,6 @@ Check == idx > 0 =>
      /\ Named(\A c \in calls : \A k \in 1..Len(some) :
                 LET alone == Admissible(c, some[k])
                     inproj == Admissible(<<LB, IntT(<<48>>), RB, Dot>> \o c, Arr(<<some[k]>>))
-                IN alone = inproj \/ (\E o \in alone \cup inproj : IsAny(o)), "AloneEqualsProjected")
+                \* (for a null element the selected form is a sub-expression on null: null, whatever the call does)
+                IN some[k] = Null \/ alone = inproj \/ (\E o \in alone \cup inproj : IsAny(o)), "AloneEqualsProjected")
 =============================================================================
